@@ -24,6 +24,7 @@ Main entry points
     truth(files, origin)                 independent ground truth: Truth(resolvable, reason, file_revisit,
                                          local_units_cycle, ...) computed directly from the graph
     random_graph(rng, ...)               larger random graphs
+    twin_graphs()                        files that are (near) copies of the origin model (Model::equals in the cycle test)
 """
 import itertools
 from collections import namedtuple
@@ -870,6 +871,43 @@ def random_graph(rng, nfiles=4, max_units=3, max_comps=3, p_import=0.45, p_missi
             name = mname(fname(0))
         files[fname(i)] = M(name, units, tops, errs)
     return files
+
+
+def twin_graphs():
+    """Graphs that exercise the second disjunct of checkForImportCycles (origin model equals the destination model):
+    f0 (origin O) imports units a from f1, f1.a imports ua from f2, and f2 holds a model with the origin's name that is a
+    copy or a near copy of O (units / components reordered, one more, one less, variables a prefix, duplicate children).
+    Yields (label, files)."""
+    o_units = [UL("ua"), UL("ub", "ua"), UI("ux", fname(1), "a")]
+    k1 = C("k1", None, ["ua"])
+    k2 = C("k2", None, ["ub"])
+    o_comps = [C("c0", None, ["ua", "ub"]), C("c1", None, [], [k1, k2])]
+    name = mname(ORIGIN)
+    origin = M(name, o_units, o_comps)
+    variants = {
+        "copy": M(name, o_units, o_comps),
+        "other-name": M("m_other", o_units, o_comps),
+        "units-reordered": M(name, [o_units[1], o_units[0], o_units[2]], o_comps),
+        "units-one-more": M(name, o_units + [UL("uz")], o_comps),
+        "units-one-less": M(name, o_units[:2], o_comps),
+        "units-ref-differs": M(name, [UL("ua"), UL("ub", STD), o_units[2]], o_comps),
+        "import-url-differs": M(name, [o_units[0], o_units[1], UI("ux", fname(2), "a")], o_comps),
+        "comps-reordered": M(name, o_units, [o_comps[1], o_comps[0]]),
+        "kids-reordered": M(name, o_units, [o_comps[0], C("c1", None, [], [k2, k1])]),
+        "vars-one-less": M(name, o_units, [C("c0", None, ["ua"]), o_comps[1]]),
+        "vars-one-more": M(name, o_units, [C("c0", None, ["ua", "ub", "ua"]), o_comps[1]]),
+        "vars-reordered": M(name, o_units, [C("c0", None, ["ub", "ua"]), o_comps[1]]),
+        "kids-duplicate": M(name, o_units, [o_comps[0], C("c1", None, [], [k1, k1])]),
+        "kid-missing": M(name, o_units, [o_comps[0], C("c1", None, [], [k1])]),
+    }
+    link = M(mname(fname(1)), [UI("a", fname(2), "ua")], [])
+    for label, t in variants.items():
+        yield ("twin-" + label, {ORIGIN: origin, fname(1): link, fname(2): t})
+    # the other direction of the asymmetric comparisons: the origin is the smaller / the duplicate one
+    for label, o2 in (("origin-vars-one-less", M(name, o_units, [C("c0", None, ["ua"]), o_comps[1]])),
+                      ("origin-kids-duplicate", M(name, o_units, [o_comps[0], C("c1", None, [], [k1, k1])])),
+                      ("origin-units-one-less", M(name, [o_units[0], o_units[2]], o_comps))):
+        yield ("twin-" + label, {ORIGIN: o2, fname(1): link, fname(2): M(name, o_units, o_comps)})
 
 
 def _add_kid(parent, kid, rng):
